@@ -105,6 +105,12 @@ func (c *ShipConnection) DataHandler() api.WebsocketDataWriterInterface {
 
 // start SHIP communication
 func (c *ShipConnection) Run() {
+	// the data connection delivers messages as soon as the connection handler exists,
+	// so the connection may already have been closed by the peer
+	if closed, _ := c.dataWriter.IsDataConnectionClosed(); closed {
+		return
+	}
+
 	c.handleShipMessage(false, nil)
 }
 
